@@ -94,8 +94,9 @@ Theorem C10_queue_in_order : forall g i dflt q0,
     nth_error (ns (spec_hist g h (init g))) i = Some s /\
     queue s = skipn (length h) q0 /\
     (h <> [] -> crdd s = RRdd (match nth_error q0 (length h - 1) with
-                              | Some b => parallelize b None
-                              | None => default_rdd dflt
+                              | Some (Some b) => parallelize b None
+                              | Some None => empty_rdd            (* a queued None: an interval without data *)
+                              | None => default_rdd dflt          (* only once the queue is exhausted *)
                               end)).
 Proof. exact queue_in_order. Qed.
 
@@ -106,7 +107,7 @@ Theorem C10_queue_all_at_once : forall g i dflt q0,
     nth_error (ns (spec_hist g h (init g))) i = Some s /\
     queue s = (match h with [] => q0 | _ => [] end) /\
     (h <> [] -> crdd s = RRdd (match length h, q0 with
-                              | 1%nat, _ :: _ => parallelize (concat q0) None
+                              | 1%nat, _ :: _ => parallelize (concat (map entry_items q0)) None
                               | _, _ => default_rdd dflt
                               end)).
 Proof. exact queue_all_at_once. Qed.
@@ -207,11 +208,49 @@ Theorem C10_file_once : forall g i d0,
     (forall k t env f, nth_error h k = Some (t, env) -> In f (env i) -> name_in (fst f) (fdone s) = true).
 Proof. exact file_once. Qed.
 
+(* ---------- registration after start(): the graph grows between ticks ----------
+   A history is a sequence of ticks (HTick) and registrations (HReg: nodes appended to
+   ssc._dstreams, starting at time 0 without RDD).  The machine refines the specification along every
+   such history ... *)
+Theorem C10_events_refine : forall h g st c,
+  graphs_ok g h -> 0 <= c -> shape g st c -> ev_increasing c h ->
+  run_events g st h = Some (spec_events g st h).
+Proof. exact events_refine. Qed.
+
+(* ... and in EVERY interval every node registered so far -- whenever it was registered, before or
+   after start(), a source, a derived branch, a join with an existing branch or an output action --
+   calls get() exactly once (sources) / has its function called exactly once (all others), ends at
+   time t and holds its function applied to its parents' RDDs of this interval.  A late action
+   therefore fires exactly once per interval from the interval after its registration. *)
+Theorem C10_every_registered_node_once : forall g st c h t env,
+  graphs_ok g (h ++ [HTick t env]) -> 0 <= c -> shape g st c -> ev_increasing c (h ++ [HTick t env]) ->
+  let '(g1, st1) := spec_events g st h in
+  run_events g st h = Some (g1, st1) /\
+  (exists new, g1 = g ++ new) /\
+  exists st2 evs, tick g1 env t st1 = Some st2 /\ log st2 = log st1 ++ evs /\
+    length (ns st2) = length g1 /\
+    (forall i s, nth_error (ns st2) i = Some s -> ctime s = t) /\
+    (forall i, pops i evs = (if is_src g1 i then 1 else 0)%nat) /\
+    (forall i, fires i evs = (if is_fn g1 i then 1 else 0)%nat) /\
+    (forall i nd, nth_error g1 i = Some nd ->
+       crdd_at st2 i = node_val nd t (delivered g1 env st1 i) (map crdd (ns st2))).
+Proof. exact tick_after_events. Qed.
+
+(* registering a program in two phases registers the graph of the whole program (so C10_per_batch_op
+   and C10_action_fires_once apply to it with the extended state); both graphs satisfy [graphs_ok] *)
+Theorem C10_phased_program : forall p1 p2,
+  prog_ok (p1 ++ p2) -> prog_total (p1 ++ p2) ->
+  let G1 := fst (expand p1) in let G2 := fst (expand (p1 ++ p2)) in
+  expand (p1 ++ p2) = expand_from p2 (expand p1) /\
+  (exists new, G2 = G1 ++ new) /\
+  graphs_ok G1 [HReg (skipn (length G1) G2)].
+Proof. exact phased_program. Qed.
+
 (* ---------- non-vacuity: a diamond (one queue, two branches, union, count, two actions) ---------- *)
 Definition ex_inc (v : val) : val := match v with VInt x => VInt (x + 1) | _ => v end.
 Definition ex_even (v : val) : bool := match v with VInt x => Z.even x | _ => false end.
 Definition ex_prog : list call :=
-  [CSource (SQueue true None [[VInt 1; VInt 2]; []; [VInt 4]]);
+  [CSource (SQueue true None [Some [VInt 1; VInt 2]; Some []; Some [VInt 4]]);
    CMap 0 ex_inc; CFilter 0 ex_even; CUnion 1 2; CCount 3; CForeachRDD 3; CForeachRDD 4].
 Definition ex_env : nat -> listing := fun _ => [].
 Definition ex_hist : list (Z * (nat -> listing)) := [(1, ex_env); (2, ex_env); (3, ex_env); (5, ex_env)].
@@ -263,4 +302,24 @@ Example ex_file_run :
   option_map (fun st => (ex_flat (crdd_at st 0), ex_flat (crdd_at st 3), pops 0 (log st), fires 4 (log st)))
              (run_hist (fst (expand ex_fprog)) ex_fhist (init (fst (expand ex_fprog))))
   = Some ([], [], 2%nat, 2%nat).
+Proof. vm_compute. split; reflexivity. Qed.
+
+(* late registration: the source and one action are registered, one tick passes, then a map branch, a
+   union with the source and a second action are registered; they take part from the next tick on *)
+Definition ex_p1 : list call := [CSource (SQueue true (Some [VInt 9]) [Some [VInt 1]; None; Some [VInt 3]]); CForeachRDD 0].
+Definition ex_p2 : list call := [CMap 0 ex_inc; CUnion 0 2; CForeachRDD 3].
+Definition ex_G1 := fst (expand ex_p1).
+Definition ex_G2 := fst (expand (ex_p1 ++ ex_p2)).
+Definition ex_events : list hevent :=
+  [HTick 1 ex_env; HReg (skipn (length ex_G1) ex_G2); HTick 2 ex_env; HTick 3 ex_env; HTick 4 ex_env].
+Example ex_late :
+  option_map (fun gs => (length (fst gs), ex_flat (crdd_at (snd gs) 5), fires 1 (log (snd gs)), fires 6 (log (snd gs))))
+             (run_events ex_G1 (init ex_G1) ex_events)
+  = Some (7%nat, [VInt 9; VInt 10], 4%nat, 3%nat).
+Proof. vm_compute. reflexivity. Qed.
+(* the queued None is an interval without data although a default exists (tick 2), the default comes
+   only after the queue is exhausted (tick 4) *)
+Example ex_none_entry :
+  option_map (fun gs => ex_flat (crdd_at (snd gs) 0)) (run_events ex_G1 (init ex_G1) (firstn 3 ex_events)) = Some [] /\
+  option_map (fun gs => ex_flat (crdd_at (snd gs) 0)) (run_events ex_G1 (init ex_G1) ex_events) = Some [VInt 9].
 Proof. vm_compute. split; reflexivity. Qed.
